@@ -4,6 +4,7 @@ pub mod util;
 pub mod bits;
 pub mod lexs;
 pub mod xs;
+pub mod pool;
 
 pub fn dispatch(line: &str) -> String {
     let toks: Vec<&str> = line.split(' ').filter(|s| !s.is_empty()).collect();
@@ -15,6 +16,7 @@ pub fn dispatch(line: &str) -> String {
         "lex" => lexs::run(&toks[1..]),
         "xs" | "xf" => xs::run(&toks[1..]),
         "c1" => xs::run_c1(&toks[1..]),
+        "pool" => pool::run(&toks[1..]),
         other => format!("UNKNOWN-KIND {}", other),
     });
     match r {
